@@ -1,6 +1,6 @@
 """C01 - Malformed input never crashes, hangs or wedges the proxy (DESIGN.md section 4, C01)."""
 import json
-import vf, wirefam
+import vf, wirefam, routerfam
 
 
 def run(ctx):
@@ -30,10 +30,18 @@ def run(ctx):
     ctx.driver(drv, ["-out", t1, "-names", ip])
     ctx.validate("WireTrace", t1, wirefam.keyfn, describe=wirefam.describe, only=["Inv_C01_", "Unconsumable"],
                  timeout=3000, require_events=len(cases))
+    if ctx.violations:      # a hang or crash of the decoder: later stages would only wait on spinning goroutines
+        return ctx.finish()
     t2 = ctx.path("mal.ndjson")
     ctx.driver(drv, ["-out", t2, "-mal", 6000 if ctx.quick else 80000])
     ctx.validate("WireTrace", t2, wirefam.keyfn, describe=wirefam.describe, only=["Inv_C01_", "Unconsumable"],
                  timeout=3000, require_events=5000)
+    if ctx.violations:
+        return ctx.finish()
+    # listener level: malformed input is rejected in the listener's way and the listener keeps serving
+    rdrv = vf.build_driver("routerdrv")
+    trace, _ = routerfam.run_mode(ctx, rdrv, "c01", ["-thorough"] if not ctx.quick else [])
+    routerfam.validate(ctx, trace, only=["Inv_C01_", "Inv_C03_Answered", "Inv_C03_AtMostOne", "Unconsumable"], require_events=300)
     ctx.extra["enumerated_inputs_replayed"] = len(cases)
     ctx.assumptions += [
         "no read out of bounds is observable in Go only as a panic: the specification proves in-bounds and termination for the modelled decoder and predicts the verdict; the real decoder is executed on every enumerated and generated input under a supervisor (panic -> crash event, 3 s stall -> hang event, neither has a specification action)",
